@@ -305,6 +305,9 @@ func main() {
 	var scs []scenario
 	vh.LoadJSON(os.Args[2], &scs)
 	tr := vh.NewTrace(os.Args[3])
+	// injections are synchronous calls into the stack; waiting for owed replies gives up after 10 s and logs: 60 s of silence
+	// means an injection did not return
+	tr.Watchdog(60 * time.Second)
 	short := false
 	for i, sc := range scs {
 		runScenario(i, sc, tr, &short)
